@@ -443,7 +443,7 @@ class Ctx:
 
 
 def write_replay(pid, name, obj):
-    d = os.path.join(VERIF, "replays", pid)
+    d = os.path.join(os.environ.get("VERIF_REPLAY_DIR", os.path.join(VERIF, "replays")), pid)
     os.makedirs(d, exist_ok=True)
     p = os.path.join(d, name)
     with open(p, "w") as f:
@@ -501,7 +501,8 @@ def finish(ctx, meta):
     ev = dict(property_id=pid, tier=ctx.tier, seed=ctx.seed, level=meta.get("category", "proof"), coverage=cov,
               assumptions=meta.get("assumptions", []) + ctx.assumptions, wall_s=round(time.time() - ctx.t0, 2),
               violations=len(ctx.violations) + (1 if (ctx.broken and not ctx.violations) else 0))
-    os.makedirs(os.path.join(VERIF, "evidence"), exist_ok=True)
-    with open(os.path.join(VERIF, "evidence", pid + ".json"), "w") as f:
+    evdir = os.environ.get("VERIF_EVIDENCE_DIR", os.path.join(VERIF, "evidence"))   # scratch trials write elsewhere
+    os.makedirs(evdir, exist_ok=True)
+    with open(os.path.join(evdir, pid + ".json"), "w") as f:
         json.dump(ev, f, indent=1, default=str)
     return rc
